@@ -23,6 +23,20 @@ if TYPE_CHECKING:
     from ._graph import Graph
 
 
+# Default-domain operators which sample: they have no constant value
+_NON_DETERMINISTIC_OPS = frozenset(
+    {
+        "Bernoulli",
+        "Dropout",
+        "Multinomial",
+        "RandomNormal",
+        "RandomNormalLike",
+        "RandomUniform",
+        "RandomUniformLike",
+    }
+)
+
+
 class StandardNode(Node):
     """
     Base type for a Node which has a known reference Schema (``self.schema``), extracted based on the ``op_type``.
@@ -151,6 +165,13 @@ class StandardNode(Node):
             for key, type_ in results.items()
         }
 
+    def _is_non_deterministic(self) -> bool:
+        """Whether the operator may compute different outputs for the same inputs."""
+        # (``OpSchema.non_deterministic`` is not reliable: onnx 1.22 also sets it for Range, If, Loop, ...)
+        return self.op_type.domain in ("", "ai.onnx") and (
+            self.op_type.identifier in _NON_DETERMINISTIC_OPS
+        )
+
     def propagate_values_onnx(self) -> Dict[str, PropValueType]:
         """Perform value propagation by evaluating singleton model.
 
@@ -164,6 +185,10 @@ class StandardNode(Node):
             return {}
         if next(iter(self.subgraphs), None) is not None:
             # Cannot do propagation with subgraphs implicitly for performance - should be reimplemented
+            return {}
+        if self._is_non_deterministic():
+            # A sampling operator (RandomUniform, Bernoulli, Dropout, ...) has no constant value:
+            # the built model draws a fresh sample on every run.
             return {}
         model, scope = self.to_singleton_onnx_model(with_dummy_subgraphs=False)
         wrap_feed, run, unwrap_feed = _value_prop.get_backend_calls()
